@@ -1572,30 +1572,27 @@ fn is_option_named(prop: &PropOrSpread, name: &str) -> bool {
 }
 
 /// Would an injected `name` option be discarded: is it already written as a key of the options
-/// object literal passed to `defineComponent`, or is the options argument a spread?
+/// object literal passed to `defineComponent`, or is the argument list spread?
 fn has_define_component_option(call: &CallExpr, name: &str) -> bool {
+    if call.args.iter().any(|arg| arg.spread.is_some()) {
+        return true;
+    }
     match call.args.get(1) {
-        Some(ExprOrSpread {
-            spread: Some(..), ..
-        }) => true,
-        Some(ExprOrSpread { spread: None, expr }) => match &**expr {
+        Some(ExprOrSpread { expr, .. }) => match &**expr {
             Expr::Object(object) => object.props.iter().any(|prop| is_option_named(prop, name)),
             _ => false,
         },
-        _ => false,
+        None => false,
     }
 }
 
 fn inject_define_component_option(call: &mut CallExpr, name: &'static str, value: Expr) {
-    let options = call.args.get_mut(1);
-    if options
-        .as_ref()
-        .and_then(|options| options.spread)
-        .is_some()
-    {
+    // with a spread argument list it is unknown which argument the options are
+    if call.args.iter().any(|arg| arg.spread.is_some()) {
         return;
     }
 
+    let options = call.args.get_mut(1);
     match options.map(|options| &mut *options.expr) {
         Some(Expr::Object(object)) => {
             if !object.props.iter().any(|prop| is_option_named(prop, name)) {
